@@ -5,13 +5,26 @@ GENERIC_NOTE = ("Trusted: Coq 8.16.1 kernel; extraction (ExtrOcamlBasic only) + 
                 "hand-written Gallina model; the model is tied to /repo's working tree on every run by differential "
                 "execution (exhaustive small ranges + seeded structured random), not by proof. ")
 
+TECH = "machine-checked proof in Coq (mirror model, theorems for all inputs) + model/implementation correspondence check via extracted OCaml oracle"
+
 CLAIMED = {
     "C20": {
         "text": "Theorems in Coq (all sizes) about a mirror model of distances.py; model tied to the code by "
                 "exhaustive (n<=4/5) and random (n<=40) differential runs on every invocation.",
         "design_ref": "DESIGN.md §7 C20",
         "note": GENERIC_NOTE + "Final float division compared through exact rationals.",
-        "technique": "machine-checked proof in Coq of the model + model/implementation correspondence check",
+        "technique": TECH,
+    },
+    "C07": {
+        "text": "Coq theorems (all instances, all sizes, Closed under the global context) about a mirror model of "
+                "pairwise_scores, copeland_scores, has_condorcet, borda_scores and order_to_pwg: closed forms of every table "
+                "entry as voter-level counts on the expanded profile, the Condorcet iff, the pwg line/total/number clauses, "
+                "regrouping invariance, type guards. The model is tied to the code by exhaustive (m<=3, <=2 ballots) and random "
+                "(m<=7/9) differential runs on every invocation, tables compared entry by entry.",
+        "design_ref": "DESIGN.md §7 C07",
+        "note": GENERIC_NOTE + "Reading: a ballot that does not rank b does not compare a with b (stated as an Example). "
+                "order_to_pwg text is re-read by the harness (split on newline/comma), not modelled character by character.",
+        "technique": TECH,
     },
 }
 
